@@ -543,7 +543,7 @@ int main() {
             break
         hit = False
         for m in re.finditer(r"sem\.cpp:(\d+):\d+: error", se):
-            ln = int(m.group(1)) - nprelude
+            ln = int(m.group(1)) - nprelude - 1      # 1-based line of o_0 is nprelude + 1
             idx, which = divmod(ln, 3)
             if 0 <= idx < len(pairs) and idx in active:
                 hit = True
